@@ -457,13 +457,20 @@ fn try_main() -> Result<i32> {
                     )
                 };
 
-                ninja_run(
-                    ninja_build_file.as_path(),
-                    verbose > 0,
-                    targets,
-                    jobs,
-                    keep_going,
-                )?;
+                // an empty explicit target list would make ninja build every default target of
+                // the file, which (when it was validated from the cache of a wider run) holds
+                // builds outside the selection: nothing selected means nothing to build
+                if targets.as_ref().is_some_and(|targets| targets.is_empty()) {
+                    println!("laze: the selection matches no configured build, nothing to build");
+                } else {
+                    ninja_run(
+                        ninja_build_file.as_path(),
+                        verbose > 0,
+                        targets,
+                        jobs,
+                        keep_going,
+                    )?;
+                }
             }
         }
         Some(("clean", clean_matches)) => {
